@@ -21,6 +21,7 @@
 (*                                      parents, same number of properties  *)
 (*                                      and events, same order              *)
 (*   cycend                             nothing expected is left unreported *)
+(*   reinstall                          set_reporter() again: act = empty   *)
 (*                                                                         *)
 (* A failed comparison is appended to `drift` as [w, d, p] like in          *)
 (* TraceChan.tla: p = "" says that the code no longer follows the           *)
@@ -90,6 +91,8 @@ CollStep(c, e) ==
          IF c.pending /\ c.exp # <<>>
          THEN Drift([c EXCEPT !.exp = <<>>, !.pending = FALSE], "expected-records-not-reported", Len(c.exp), "")
          ELSE [c EXCEPT !.pending = FALSE]
+    \* set_reporter() again: a fresh collector object, nothing retained
+    [] e.ev = "reinstall" -> [c EXCEPT !.act = [x \in {} |-> None], !.foreign = {}, !.sig = <<>>, !.subs = <<>>, !.exp = <<>>, !.pending = FALSE]
     [] OTHER -> c
 
 CollResult(c) == c.drift
